@@ -1,4 +1,4 @@
-CONSTANT Families = {"eval", "order", "rep", "full", "opt"}
+CONSTANT Families = {"eval", "order", "rep", "full", "intx", "opt"}
 CONSTANT BkMax = 6
 CONSTANT Nords = {1, 2, 3, 4, 5, 6}
 CONSTANT SpreadSel = "all"
@@ -6,7 +6,10 @@ CONSTANT RepLen = 5
 CONSTANT OrderLen = 4
 CONSTANT FullNords = {1, 2, 3, 4, 5}
 CONSTANT FullExtra = {0, 1, 2}
-CONSTANT Ns = {2, 3, 4, 5, 6, 7, 8, 9, 10, 11, 12}
+CONSTANT IntxMax = 5
+CONSTANT FormAllNs = {3, 8}
+CONSTANT Ns = {1, 2, 3, 4, 5, 6, 7, 8, 9, 10, 11, 12}
+CONSTANT OptNords = {1, 2, 3, 4, 5, 6}
 CONSTANT AgreeNords = {1, 2, 3, 4, 5, 6}
 INIT Init
 NEXT Next
@@ -20,4 +23,6 @@ INVARIANT C08_DefinitionsAgree
 INVARIANT C08_Continuity
 INVARIANT C08_ProcedureEqualsDefinition
 INVARIANT C08_MaskExactlyOutside
+INVARIANT C08_FormsRepresent
+INVARIANT C08_FormIndependent
 CHECK_DEADLOCK FALSE
